@@ -149,6 +149,7 @@ pub fn property(tier: Tier) -> Property {
         ("long-fgh", LangId::Fgh, 600, 12_000),
     ] {
         let mut cfg = MixedCfg::for_lang(lang);
+        cfg.hist.namings = crate::tm::Naming::diverse();
         cfg.max_ops = tier.pick(20, 30);
         stages.push(Box::new(Stage {
             name,
